@@ -1,6 +1,6 @@
 (** Correspondence + spec search for the parameter / TCP-policy lab (C19, C20, part of C10). *)
 From Coq Require Import List ZArith Bool.
-From TR Require Import Lib.Sx Lib.Bytes Pol.Params Run.Eng.
+From TR Require Import Lib.Sx Lib.Bytes Pol.Params Run.Eng Generated.Consts.
 Import ListNotations.
 Open Scope Z_scope.
 
@@ -192,6 +192,43 @@ Definition check_par (prop : Z) (inp impl : sx) : sx :=
              && Bool.eqb (0 <? syn) ((fb_syn_calls r =? 1) && negb ((capab =? 7) && (match m with MSyn => true | _ => false end)))
              && (accepted =? (if (fb_sack_calls r =? 1) && negb (capab =? 4) then 1 else 0))
           then verdict V_OK cls [] (L []) else verdict V_DIVERGE cls [] (L [A merr; of_bool mns; of_bool mcause; A (fb_syn_calls r); A (fb_sack_calls r)])
+      end
+  (* ---- command-line flags: the runs started and the parameters they are started with are the ones the flags state *)
+  | L [A 25; A pr; A me; A q; A e2e; A tmo; A mx; A port; A rdns; A skip], L [A status; A nreg; A ne2e; L seen] =>
+      match sx_zs seen with
+      | Some seen =>
+          let want := [tmo * 1000000; pr; (if pr =? 1 then me else me); mx; port; rdns; skip; 0; common_DefaultMinTTL; common_DefaultDelay] in
+          if (status =? 0) && (nreg =? q) && (ne2e =? e2e) && zl_eqb seen want then verdict V_OK 2 [] (L [])
+          else if prop =? 19 then verdict V_SPECFAIL 2 [19; 12] (L (map A want)) else verdict V_DIVERGE 2 [] (L (map A want))
+      | None => badcase
+      end
+  (* ---- the remaining HTTP query parameters: a well-formed value is handed on as given, anything else is the default *)
+  | L [A 24; qtq; qtmo; qe2e; L qflags], L (A status :: rest) =>
+      match opt_z qtq, opt_z qtmo, opt_z qe2e, dec_list opt_z qflags with
+      | Some tq, Some tmo, Some e2e, Some flags =>
+          let want_tq := q_int tq common_DefaultTracerouteQueries in
+          let want_tmo := q_int tmo common_DefaultNetworkPathTimeout * 1000000 in
+          let want_e2e := q_int e2e common_DefaultNumE2eProbes in
+          let want_flags := map (fun f => q_int f 0) flags in
+          match rest with
+          | [A itq; A itmo; A ie2e; L iflags; A imin; A idelay] =>
+              match sx_zs iflags with
+              | Some iflags =>
+                  let agree := (status =? 0) && (itq =? want_tq) && (itmo =? want_tmo) && (ie2e =? want_e2e) && zl_eqb iflags want_flags
+                               && (imin =? common_DefaultMinTTL) && (idelay =? common_DefaultDelay) in
+                  if agree then verdict V_OK 2 [] (L [])
+                  else if (prop =? 19) && (status =? 0)
+                          && (match tq with Some v => negb (itq =? v) | None => false end
+                              || match tmo with Some v => negb (itmo =? v * 1000000) | None => false end
+                              || match e2e with Some v => negb (ie2e =? v) | None => false end
+                              || negb (forallb (fun ab => match fst ab with Some v => snd ab =? v | None => true end) (combine flags iflags)))
+                       then verdict V_SPECFAIL 2 [19; 9] (L [A want_tq; A want_tmo; A want_e2e])
+                  else verdict V_DIVERGE 2 [] (L [A want_tq; A want_tmo; A want_e2e; L (map A want_flags)])
+              | None => badcase
+              end
+          | _ => verdict V_DIVERGE 2 [] (L [])
+          end
+      | _, _, _, _ => badcase
       end
   (* ---- the endpoint an HTTP query's target text stands for (address, explicit port or the port parameter or the default)
           is the endpoint the request would probe *)
